@@ -309,7 +309,7 @@ Definition val_ok (ty : sqltype) (maxLen : N) (v : sqlval) : bool :=
   | _, _ => false
   end.
 
-(* a column as the catalog admits it in an index: MaxLen() of its type, 1 .. MaxKeyLen for
+(* a column as the catalog allows it in an index: MaxLen() of its type, 1 .. MaxKeyLen for
    the variable-sized types *)
 Definition col_ok (mkl : N) (c : col) : bool :=
   let '(ty, ml) := c in
